@@ -296,7 +296,12 @@ theorem mem_of_lookup {k v : String} : ∀ (l : List (String × String)), l.look
     · obtain ⟨k'', hk⟩ := mem_of_lookup rest h
       exact ⟨k'', List.mem_cons_of_mem _ hk⟩
 
-theorem licenseClassifier_singleLine (l : License) (h : SingleLine l.name) : SingleLine l.classifier := by
+/-- the only licences whose SPDX *name* is printed (in the licence classifier): ids of CLASSIFIER_SUPPORTED that have
+no entry in CLASSIFIER_NAMES -/
+def NameNeeded (l : License) : Prop :=
+  Gen.licenseClassifierSupported.contains l.id = true ∧ Gen.licenseClassifierNames.lookup l.id = none
+
+theorem licenseClassifier_singleLine (l : License) (h : NameNeeded l → SingleLine l.name) : SingleLine l.classifier := by
   unfold License.classifier
   apply joinWith_singleLine _ (by decide)
   intro x hx
@@ -317,9 +322,10 @@ theorem licenseClassifier_singleLine (l : License) (h : SingleLine l.name) : Sin
       · split at hc
         · cases hc
         · cases hc; decide
-      · have tbl : ∀ kv ∈ Gen.licenseClassifierNames, SingleLine kv.2 := by decide
+      · rename_i hsup
+        have tbl : ∀ kv ∈ Gen.licenseClassifierNames, SingleLine kv.2 := by decide
         cases hl : Gen.licenseClassifierNames.lookup l.id with
-        | none => rw [hl] at hc; cases hc; exact h
+        | none => rw [hl] at hc; cases hc; exact h ⟨by simpa using hsup, hl⟩
         | some nm' =>
           rw [hl] at hc; cases hc
           obtain ⟨k', hk⟩ := mem_of_lookup _ hl
@@ -399,7 +405,7 @@ theorem contentTypeOfPath_singleLine (r : String) : SingleLine (contentTypeOfPat
 theorem pythonClassifierOf_singleLine : ∀ v ∈ Gen.availablePythons, SingleLine (pythonClassifierOf v) := by decide
 
 theorem allClassifiers_ok (p : Pkg) (cs : List String) (h : p.allClassifiers = .ok cs)
-    (hc : ∀ c ∈ p.classifiers, SingleLine c) (hl : ∀ l, p.license = some l → SingleLine l.name) :
+    (hc : ∀ c ∈ p.classifiers, SingleLine c) (hl : ∀ l, p.license = some l → NameNeeded l → SingleLine l.name) :
     ∀ c ∈ cs, SingleLine c := by
   unfold Pkg.allClassifiers at h
   split at h
@@ -433,7 +439,7 @@ theorem toMeta_guard (p : Pkg) (texts : List String) (fp : String) (m : Meta)
     (hauth : ∀ x, p.authors.head? = some x → SingleLine x)
     (hmaint : ∀ x, p.maintainers.head? = some x → SingleLine x)
     (hcls : ∀ c ∈ p.classifiers, SingleLine c)
-    (hlic : ∀ l, p.license = some l → SingleLine l.name)
+    (hlic : ∀ l, p.license = some l → NameNeeded l → SingleLine l.name)
     (hextras : ∀ e ∈ p.extras, SingleLine e) (hrd : ∀ d ∈ p.requiresDist, SingleLine d)
     (hurls : KVOk p.urls)
     (hct : ∀ c, p.readmeContentType = some c → SingleLine c)
@@ -630,8 +636,8 @@ structure Trusted (proj : ProjectT) (tool : ToolT) (spdx : String → Option Lic
   requiresDist : ∀ d ∈ rd, SingleLine d
   /-- `[tool.poetry].homepage/repository/documentation`: schema `format: uri`, not validated -/
   toolLinks : ∀ u, (tool.homepage = some u ∨ tool.repository = some u ∨ tool.documentation = some u) → SingleLine u
-  /-- licence names in the SPDX table -/
-  spdxNames : ∀ raw l, spdx raw = some l → SingleLine l.name
+  /-- licence names in the SPDX table, for the few licences whose name is printed -/
+  spdxNames : ∀ raw l, spdx raw = some l → NameNeeded l → SingleLine l.name
 
 theorem validated_guard (proj : ProjectT) (tool : ToolT) (spdx : String → Option License) (stored : Option String)
     (extras rd texts : List String) (fp : String) (m : Meta)
